@@ -135,6 +135,10 @@ def bytes_to_human(value, prec=2):
 
 
 def guess_type(value: str) -> Any:
+    if not isinstance(value, str):
+        # Already a typed value (e.g., `port = 9877` in the TOML configuration file)
+        return value
+
     if value.lower() in {'none', 'false', 'true'}:
         value = value.title()
 
